@@ -525,3 +525,151 @@ Proof.
   vm_compute in E. injection E as <-. split; [vm_compute; discriminate|].
   eexists. split; [vm_compute; reflexivity|]. vm_compute. reflexivity.
 Qed.
+
+(** ================================================================
+    Part 5 — reload (NewBasicDirectoryFromNode) in the repaired model
+    ================================================================ *)
+Lemma unix_perms_high_bits : forall m i, 12 <= i -> Z.testbit (ModePermsToUnixPerms m) i = false.
+Proof.
+  intros m i Hi. unfold ModePermsToUnixPerms. tbnorm.
+  repeat match goal with
+  | |- context [Z.testbit (Zpos ?p) ?k] =>
+      let e := eval vm_compute in (Z.log2 (Zpos p) + 1) in
+      rewrite (tb_const_hi (Zpos p) e k) by (split; [split; [discriminate|reflexivity]|lia] || lia)
+  end.
+  rewrite ?andb_false_r, ?andb_false_l, ?orb_false_r. reflexivity.
+Qed.
+
+Lemma unix_perms_range : forall m, 0 <= ModePermsToUnixPerms m < 4096.
+Proof.
+  intro m.
+  assert (Hn : 0 <= ModePermsToUnixPerms m).
+  { apply Z.bits_iff_nonneg_ex. exists 12. intros i Hi. apply unix_perms_high_bits. lia. }
+  split; [exact Hn|]. change 4096 with (2 ^ 12).
+  apply lt_pow2_of_bits; [exact Hn|lia|]. intros i Hi. apply unix_perms_high_bits. exact Hi.
+Qed.
+
+(** what Mode() gives back for a directory with permission word p re-encodes to p *)
+Definition reload_ok (p : Z) : bool :=
+  let md := Z.lor (UnixPermsToModePerms p) ModeDir in
+  negb (md =? 0) && (ModePermsToUnixPerms md =? p).
+
+Lemma reload_sweep : forallb reload_ok (map (fun x => x + 1) (zrange 4095)) = true.
+Proof. vm_compute. reflexivity. Qed.
+
+Lemma reload_word : forall p, 1 <= p < 4096 ->
+  Z.lor (UnixPermsToModePerms p) ModeDir <> 0 /\
+  ModePermsToUnixPerms (Z.lor (UnixPermsToModePerms p) ModeDir) = p.
+Proof.
+  intros p H.
+  assert (Hin : In p (map (fun x => x + 1) (zrange 4095))).
+  { apply in_map_iff. exists (p - 1). split; [lia|]. apply zrange_in. lia. }
+  pose proof (proj1 (forallb_forall reload_ok _) reload_sweep p Hin) as S.
+  unfold reload_ok in S. apply andb_true_iff in S. destruct S as [S1 S2].
+  apply negb_true_iff in S1. apply Z.eqb_neq in S1. apply Z.eqb_eq in S2. split; assumption.
+Qed.
+
+Lemma data_field_size_congr : forall m1 m2 t,
+  (m1 =? 0) = (m2 =? 0) -> ModePermsToUnixPerms m1 = ModePermsToUnixPerms m2 ->
+  data_field_size m1 t = data_field_size m2 t.
+Proof.
+  intros m1 m2 t H1 H2. unfold data_field_size, data_inner_size. rewrite H1, H2. reflexivity.
+Qed.
+
+Lemma time_of_dir_data : forall M T, wf_gtime T -> norm_time T = T -> time_of (dir_data M T) = T.
+Proof.
+  intros M [s n] [Hs Hn] HN. unfold norm_time in HN. unfold time_of, dir_data. cbn [d_mtime fst snd] in *.
+  destruct (is_zero (s, n)) eqn:Ez; [exact HN|].
+  cbn [t_sec t_nanos]. destruct (Z.ltb_spec 0 n).
+  - destruct (Z.ltb_spec n 1); [lia|]. destruct (Z.ltb_spec 999999999 n); [lia|]. reflexivity.
+  - replace n with 0 by lia. reflexivity.
+Qed.
+
+Lemma decode_dir_data : forall M T, wf_gtime T -> decode_data (dir_data_bytes M T) = Some (dir_data M T).
+Proof.
+  intros M T H. apply decode_encode; [apply wf_dir_data; exact H|].
+  unfold encode_data, dir_data_bytes.
+  assert (I : initialized (dir_data M T) = true).
+  { unfold initialized, dir_data. cbn [d_type d_mtime is_some andb]. destruct (is_zero T); reflexivity. }
+  rewrite I. reflexivity.
+Qed.
+
+Lemma sum_links_perm : forall a b, Permutation a b -> sum_links a = sum_links b.
+Proof.
+  intros a b P. unfold sum_links.
+  induction P as [|x l l' _ IH|x y l|l l' l'' _ IH1 _ IH2]; cbn [fold_right]; lia.
+Qed.
+
+Lemma reload_inv : forall M T d, wf_gtime T -> norm_time T = T -> inv M T d ->
+  exists d', reload true d = Some d' /\ inv M T d'.
+Proof.
+  intros M T d HT HN I. unfold reload. rewrite (i_data _ _ _ I), decode_dir_data by exact HT.
+  rewrite time_of_dir_data by assumption.
+  eexists. split; [reflexivity|].
+  pose proof (sort_links_perm (links d)) as P.
+  assert (DS : forall md, (md =? 0) = (M =? 0) ->
+                          ModePermsToUnixPerms md = ModePermsToUnixPerms (if M =? 0 then 0 else M) ->
+                          data_field_size md T = data_field_size M T).
+  { intros md H1 H2. apply data_field_size_congr; [exact H1|].
+    rewrite H2. destruct (Z.eqb_spec M 0) as [->|]; reflexivity. }
+  set (md := if (true && (mode_of_dir (dir_data M T) =? 0) &&
+                 match d_mode (dir_data M T) with Some _ => true | None => false end)%bool
+             then ModeDir else mode_of_dir (dir_data M T)).
+  assert (MD : data_field_size md T = data_field_size M T).
+  { apply DS; unfold md, mode_of_dir, dir_data; cbn [d_mode andb].
+    - destruct (Z.eqb_spec M 0) as [->|Hne]; [reflexivity|].
+      pose proof (unix_perms_range M) as R.
+      change 4095 with (Z.ones 12). rewrite Z.land_ones by lia. rewrite Z.mod_small by (change (2 ^ 12) with 4096; lia).
+      destruct (Z.eqb_spec (ModePermsToUnixPerms M) 0) as [E0|E0].
+      + cbn [Z.eqb andb]. reflexivity.
+      + destruct (reload_word (ModePermsToUnixPerms M) ltac:(lia)) as [Hnz _].
+        destruct (Z.eqb_spec (Z.lor (UnixPermsToModePerms (ModePermsToUnixPerms M)) ModeDir) 0); [contradiction|].
+        cbn [andb]. destruct (Z.eqb_spec (Z.lor (UnixPermsToModePerms (ModePermsToUnixPerms M)) ModeDir) 0); [contradiction|reflexivity].
+    - destruct (Z.eqb_spec M 0) as [->|Hne]; [reflexivity|].
+      pose proof (unix_perms_range M) as R.
+      change 4095 with (Z.ones 12). rewrite Z.land_ones by lia. rewrite Z.mod_small by (change (2 ^ 12) with 4096; lia).
+      destruct (Z.eqb_spec (ModePermsToUnixPerms M) 0) as [E0|E0].
+      + cbn [Z.eqb andb]. rewrite E0. reflexivity.
+      + destruct (reload_word (ModePermsToUnixPerms M) ltac:(lia)) as [Hnz Hp].
+        destruct (Z.eqb_spec (Z.lor (UnixPermsToModePerms (ModePermsToUnixPerms M)) ModeDir) 0); [contradiction|].
+        cbn [andb]. exact Hp. }
+  unfold recompute. cbn [links est total dmode dtime ndata]. fold md.
+  constructor; cbn [links est total dmode dtime ndata].
+  - apply Forall_forall. intros x Hx. apply (proj1 (Forall_forall _ _) (i_good _ _ _ I)).
+    eapply Permutation_in; [apply Permutation_sym, P|exact Hx].
+  - eapply Permutation_NoDup; [apply Permutation_map, P|exact (i_nodup _ _ _ I)].
+  - rewrite MD, <- (sum_links_perm _ _ P). reflexivity.
+  - reflexivity.
+  - exact MD.
+  - reflexivity.
+Qed.
+
+Lemma norm_time_idem : forall t, norm_time (norm_time t) = norm_time t.
+Proof. intro t. unfold norm_time. destruct (is_zero t) eqn:E; [reflexivity|]. rewrite E. reflexivity. Qed.
+
+Lemma run_inv_fixed : forall M T ops d, wf_gtime T -> norm_time T = T -> inv M T d ->
+  Forall wf_op ops -> exists d', run true d ops = Some d' /\ inv M T d'.
+Proof.
+  induction ops as [|o ops IH]; intros d HT HN I W; cbn [run] in *.
+  - exists d. split; [reflexivity|exact I].
+  - inversion W as [|? ? Wo Wops]; subst.
+    destruct (is_edit o) eqn:Eo.
+    + destruct (step_inv_edit true M T o d HT I Wo Eo) as (d1 & ok & S1 & I1). rewrite S1.
+      apply (IH d1 HT HN I1 Wops).
+    + destruct o; try discriminate. cbn [step].
+      destruct (reload_inv M T d HT HN I) as (d1 & R1 & I1). rewrite R1.
+      apply (IH d1 HT HN I1 Wops).
+Qed.
+
+(** With the reload repaired ([fl = true]): creation, then ANY sequence of adds,
+    replacements, removals AND reloads of the serialised block. *)
+Theorem history_exact_fixed : forall mode t ops,
+  wf_gtime t -> Forall wf_op ops ->
+  exists d, run true (new_dir mode t) ops = Some d /\
+            est d = blen (node_bytes d) /\ 0 <= est d /\ total d = blen (links d).
+Proof.
+  intros mode t ops Ht W.
+  destruct (run_inv_fixed _ _ ops _ (wf_norm_time t Ht) (norm_time_idem t) (new_dir_inv mode t Ht) W)
+    as (d & R & I).
+  exists d. split; [exact R|]. apply (inv_exact _ _ d (wf_norm_time t Ht) I).
+Qed.
